@@ -7,6 +7,7 @@ import (
 
 	"verif/mc"
 	"verif/vrt"
+	"verif/vrt/vctx"
 	"verif/vrt/vtime"
 )
 
@@ -23,13 +24,14 @@ type c19Case struct {
 	hold    time.Duration // how long each holder keeps its token (0 = a schedule point only)
 	backlog int           // maximum backlog (0 = 10)
 	timeout time.Duration // backlog timeout given to the pool (0 = 1 s, which is also the library's default)
+	cancel1 bool          // caller 1's context is cancelled at 100 ms (pools do not evict on cancel: the line must keep moving)
 	eager   bool          // backlog timeouts may fire at any point (a caller giving up while it is being handed a token)
 }
 
 func c19Scenario(cs c19Case) *mc.Scenario {
 	return &mc.Scenario{
 		Name:   "C19/" + cs.kind,
-		Params: fmt.Sprintf("limit=%d callers=%d backlog=%d timeout=%v hold=%v eager-clock=%v", cs.limit, cs.callers, cs.bl(), cs.to(), cs.hold, cs.eager),
+		Params: fmt.Sprintf("limit=%d callers=%d backlog=%d timeout=%v hold=%v eager-clock=%v caller-1-cancelled=%v", cs.limit, cs.callers, cs.bl(), cs.to(), cs.hold, cs.eager, cs.cancel1),
 		Cfg:    vrt.Config{Events: true, MaxSteps: 6000, EagerClock: cs.eager, Horizon: int64(10 * time.Second)},
 		Body: func(x *mc.Exec) {
 			st := buildStack(cs.kind, cs.limit, stackOpts{maxBacklog: cs.bl(), timeout: cs.to()})
@@ -41,10 +43,16 @@ func c19Scenario(cs c19Case) *mc.Scenario {
 			var ths []*vrt.Thread
 			for i := 0; i < cs.callers; i++ {
 				i := i
+				cctx := waiterCtx(i)
+				if cs.cancel1 && i == 1 {
+					c2, cancel := vctx.WithCancel(cctx)
+					cctx = c2
+					vrt.GoL("X", func() { vtime.Sleep(100 * time.Millisecond); cancel() })
+				}
 				ths = append(ths, vrt.GoL(fmt.Sprintf("C%d", i), func() {
 					ws.tid[i] = vrt.Self().ID
 					ws.inAcq[i] = true
-					l, ok := st.top.Acquire(waiterCtx(i))
+					l, ok := st.top.Acquire(cctx)
 					ws.inAcq[i] = false
 					ws.returned[i] = true
 					ws.granted[i] = ok
@@ -113,13 +121,16 @@ func c19Scenario(cs c19Case) *mc.Scenario {
 			}
 			if ws, _ := x.Aux.(*waitState); ws != nil {
 				for i, g := range ws.granted {
+					if cs.cancel1 && i == 1 {
+						continue // whether a cancelled caller keeps its claim is the pool's business
+					}
 					if !g {
 						x.Fail("not-granted", "caller %d was refused although callers <= limit + backlog and every holder releases", i)
 					} else if cs.hold == 0 && ws.retClock[i] != 0 {
 						x.Fail("needed-time", "caller %d was granted only at virtual time %d (needed a timeout)", i, ws.retClock[i])
 					}
 				}
-				if cs.hold > 0 && !x.Failed() {
+				if cs.hold > 0 && !x.Failed() && !cs.cancel1 {
 					// every holder keeps its token for the same time: the k-th grant happens when the
 					// (k-limit)-th holder releases, i.e. at floor(k/limit) hold times
 					cl := append([]int64{}, ws.retClock...)
@@ -158,6 +169,8 @@ func runC19(c *Ctx) {
 		c.Explore(c19Scenario(c19Case{kind: kind, limit: 2, callers: 3}), mc.Options{PreemptBound: c.Pick(2, 3)})
 		// holders keep their tokens for 300 ms of virtual time (three generations fit into the 1 s timeout)
 		c.Explore(c19Scenario(c19Case{kind: kind, limit: 1, callers: 3, hold: 300 * time.Millisecond}), mc.Options{PreemptBound: 2})
+		// a queued caller's context is cancelled while it waits; the holder releases later
+		c.Explore(c19Scenario(c19Case{kind: kind, limit: 1, callers: 3, hold: 300 * time.Millisecond, cancel1: true}), mc.Options{PreemptBound: c.Pick(1, 2)})
 		// a timeout above the library's default: the third caller is served after 1.4 s, inside the 2 s it was given
 		c.Explore(c19Scenario(c19Case{kind: kind, limit: 1, callers: 3, hold: 700 * time.Millisecond, timeout: 2 * time.Second}), mc.Options{PreemptBound: c.Pick(1, 2)})
 		// exactly as many callers as limit + backlog: nobody may be turned away
